@@ -13,9 +13,12 @@ HARNESSES = [("h_store", "rel")]
 ASSUMPTIONS = [
     "twin histories are API-conformant (harness answers SKIP outside documented preconditions: setState / invalidate / "
     "remove that would unapply a final block)",
-    "toy parameters keep the relations that the production defaults satisfy by a wide margin: "
-    "alt_preserve >= settlement + 2*keystoneInterval + 2 (see finding ctx-keystone-dealloc for what happens at "
-    "preserve == settlement), VBK max-reorg window longer than the VBK context any reorganizable ALT block carries",
+    "documented exclusion tied to known finding ctx-keystone-dealloc: generated histories use "
+    "alt_preserve >= settlement + 2*keystoneInterval + 2; at preserve == settlement (the default relation) "
+    "finalization deallocates keystones CheckPublicationData still needs — the corpus witness "
+    "corpus/C09/F12_ctx_keystone_dealloc.json runs on every check under that key, every OTHER violation is reported",
+    "VBK max-reorg window longer than the VBK context any reorganizable ALT block carries (SP finalization is "
+    "not bounded by the protected chain's reorg window in the code; production defaults satisfy this by a wide margin)",
     "BTC finalization is not reachable with small settings (BtcChainParams::getMaxReorgBlocks asserts "
     ">= difficulty adjustment interval = 2016); the BTC tree shares BaseBlockTree::finalizeBlockImpl with ALT/VBK",
 ]
@@ -35,7 +38,10 @@ META = {
             "acceptBlockHeader/acceptBlock/setState/comparePopScore/getPopPayout for every candidate descending from "
             "F's final block, refusal of every candidate forking below it, monotone final block, equal state of the "
             "retained part of all three trees.",
-    "note": "Trusted: Coq kernel, extraction, OCaml driver, C++ harness (harness/h_store.cpp over harness/world.hpp), "
+    "note": "Known finding ctx-keystone-dealloc (preserve == settlement deallocates keystones needed by "
+            "CheckPublicationData): reproduced by a corpus witness on every run (KNOWN-FINDING), excluded from the "
+            "generated histories by alt_preserve >= settle + 2*ki + 2. "
+            "Trusted: Coq kernel, extraction, OCaml driver, C++ harness (harness/h_store.cpp over harness/world.hpp), "
             "generators. ALT and VBK trees finalize in the runs (VBK bounded by the BTC tip's references as coded); "
             "BTC does not (asserted parameter floor).",
     "technique": "Coq proof (tree model) + extraction-based correspondence + twin-instance differential oracle",
